@@ -527,6 +527,10 @@ def check_wrappers(case, rec):
                     results.append(np.concatenate([np.ravel(r[1]), np.ravel(r[2]).astype(float)]))
                 else:
                     fld = rs.standard_normal((n, 4))
+                    if case["seed"] % 3 == 0:
+                        fld[:, int(rs.randint(0, 4))] = 1.5  # a grid line without variation still counts its pairs
+                    elif case["seed"] % 3 == 1:
+                        fld = (fld > 0.8).astype(float)  # indicator data: some lines constant, others not
                     r_ax = np.asarray(lib(gs.vario_estimate_axis, fld, "x", _tags=tags))
                     est = kbuild.load("estimator", "installed")
                     require(np.allclose(r_ax, np.asarray(est.structured(fld, "m", None)), rtol=1e-13, atol=0, equal_nan=True),
